@@ -31,12 +31,12 @@ var libPkgs = []string{pkgRoot, pkgLex, pkgReduce, pkgExpr, pkgDriver}
 
 // Ctx is everything the rules need about the loaded program.
 type Ctx struct {
-	Repo  string
-	Fset  *token.FileSet
-	Pkgs  map[string]*packages.Package
-	Prog  *ssa.Program
-	SSA   map[string]*ssa.Package
-	Funcs []*ssa.Function // all source functions of the module (incl. closures, instantiations)
+	Repo      string
+	Fset      *token.FileSet
+	Pkgs      map[string]*packages.Package
+	Prog      *ssa.Program
+	SSA       map[string]*ssa.Package
+	Funcs     []*ssa.Function // all source functions of the module (incl. closures, instantiations)
 	okGuardAt ssa.Instruction // NIL-TYPED: the use site whose dominating tests may guard a helper's comma-ok result
 
 	roles        map[string]any // memoised role resolutions
